@@ -43,6 +43,14 @@ def vk_dump(vk, fmt):
 
 def vk_load(lk, data, fmt, curve, hashfunc):
     p = fmt.split(":")
+    if hashfunc is None:
+        # the plain call: the loader's own default hash function
+        if p[0] == "string":
+            return lk.VerifyingKey.from_string(data, curve)
+        if p[0] == "der":
+            return lk.VerifyingKey.from_der(data)
+        if p[0] == "pem":
+            return lk.VerifyingKey.from_pem(data)
     if p[0] == "string":
         return lk.VerifyingKey.from_string(data, curve, hashfunc)
     if p[0] == "der":
@@ -71,6 +79,13 @@ def sk_load(lk, data, fmt, curve, hashfunc):
     p = fmt.split(":")
     if len(p) > 1 and p[1].startswith("pkcs8"):
         p[1] = "pkcs8"
+    if hashfunc is None:
+        if p[0] == "string":
+            return lk.SigningKey.from_string(data, curve)
+        if p[0] == "der":
+            return lk.SigningKey.from_der(data)
+        if p[0] == "pem":
+            return lk.SigningKey.from_pem(data)
     if p[0] == "string":
         return lk.SigningKey.from_string(data, curve, hashfunc)
     if p[0] == "der":
